@@ -55,3 +55,16 @@ package prefix
 //@   ensures @C03: old(len(bufStr(data))) < 32 ==> result2 == transports.ErrTryAgain
 //@   ensures @C03: result2 != nil ==> result2 == transports.ErrTryAgain || result2 == transports.ErrNotTransport || result2 == ErrIncorrectPrefix || result2 == ErrIncorrectTransport
 //@   assigns bufStr(data), obj(data)
+
+// C01 (transport identification secret, prefix): same label "PrefixTransportHMACString" on both sides.
+//@ import io "io"
+//@ func (t Transport) GetIdentifier(d transports.Registration) string
+//@   requires d != nil
+//@   atcall ConjureHMAC before: assert @C01: arg1 == "PrefixTransportHMACString"
+//@   atcall ConjureHMAC after: snap tag := string(res)
+//@   ensures @C01: defined(tag) && result == tag
+//@ func (t *ClientTransport) PrepareKeys(pubkey [32]byte, sharedSecret []byte, hkdf io.Reader) error
+//@   requires t != nil
+//@   atcall ConjureHMAC before: assert @C01: arg1 == "PrefixTransportHMACString" && arg0 == sharedSecret
+//@   atcall ConjureHMAC after: snap tag := res
+//@   ensures @C01: result == nil && defined(tag) && t.connectTag == tag
